@@ -5,6 +5,8 @@ Extracted by AST pattern (anything unexpected raises => tie broken):
       expression of `symbols[...] = symbol`, the average-energy expression and the
       final `symbols / math.sqrt(average_energy)`
   PSK._createConstellation : the phase expression, cos/sin parts and `realPart + 1j*imagPart`
+      (the parts may be spelled `np.exp(1j * phases).real/.imag`; snapping of values below 1e-15 to 0, by
+      masked assignment or `np.where`, is recognised and left out as before)
   BPSK.__init__            : the literal constellation `np.array([1, -1])`
 """
 import ast
@@ -12,6 +14,7 @@ import os
 
 from harness.translate import HEADER, TranslateError, find_fn, parse_file, strip_doc
 from harness.gen.c16 import lit
+from harness.gen import norm
 
 
 def int_expr(e, names):
@@ -41,6 +44,84 @@ def real_expr(e, env):
             and ast.unparse(e.args[1]) == 'M':
         return '(k : α)'
     raise TranslateError('unsupported real expression ' + ast.unparse(e))
+
+
+def _is_np(e, name):
+    return isinstance(e, ast.Attribute) and e.attr == name and isinstance(e.value, ast.Name) and e.value.id == 'np'
+
+
+def _is_abs_of(e, what):
+    return (isinstance(e, ast.Call) and len(e.args) == 1 and not e.keywords
+            and ((isinstance(e.func, ast.Name) and e.func.id == 'abs') or _is_np(e.func, 'abs'))
+            and ast.unparse(e.args[0]) == what)
+
+
+def _small(e):
+    return isinstance(e, ast.Constant) and isinstance(e.value, float) and 0 < e.value <= 1e-12
+
+
+def _zero(e):
+    return isinstance(e, ast.Constant) and not isinstance(e.value, bool) and e.value in (0, 0.0)
+
+
+def psk_check_parts(stmts, phases):
+    """PSK._createConstellation must return `cos(phases) + 1j * sin(phases)` (each part possibly with values below
+    a tiny threshold snapped to 0, which the model abstracts: `v[abs(v) < eps] = 0` or `np.where(abs(v) < eps, 0, v)`).
+    The locals are substituted in order; `np.exp(1j * x).real` / `.imag` are `cos x` / `sin x` (Euler's formula,
+    x real)."""
+    env = {}
+    for st in stmts[:-1]:
+        if isinstance(st, ast.Assign) and len(st.targets) == 1 and isinstance(st.targets[0], ast.Name):
+            env[st.targets[0].id] = norm.subst(st.value, env)
+            continue
+        if (isinstance(st, ast.Assign) and len(st.targets) == 1 and isinstance(st.targets[0], ast.Subscript)
+                and isinstance(st.targets[0].value, ast.Name) and st.targets[0].value.id in env and _zero(st.value)):
+            v = st.targets[0].value.id
+            m = st.targets[0].slice
+            if isinstance(m, ast.Compare) and len(m.ops) == 1 and isinstance(m.ops[0], ast.Lt) and _is_abs_of(m.left, v) \
+                    and _small(m.comparators[0]):
+                continue                        # snap-to-zero of tiny values: not part of the model
+        if isinstance(st, ast.Assert):
+            continue
+        raise TranslateError('PSK: unsupported statement ' + ast.unparse(st)[:80])
+    ret = stmts[-1]
+    if not (isinstance(ret, ast.Return) and ret.value is not None):
+        raise TranslateError('PSK: no return value')
+    e = norm.subst(ret.value, env)
+
+    def unsnap(x):
+        # np.where(abs(X) < eps, 0, X) -> X
+        while (isinstance(x, ast.Call) and _is_np(x.func, 'where') and len(x.args) == 3 and not x.keywords
+               and _zero(x.args[1]) and isinstance(x.args[0], ast.Compare) and len(x.args[0].ops) == 1
+               and isinstance(x.args[0].ops[0], ast.Lt) and _small(x.args[0].comparators[0])
+               and _is_abs_of(x.args[0].left, ast.unparse(x.args[2]))):
+            x = x.args[2]
+        return x
+
+    def trig(x):
+        x = unsnap(x)
+        if isinstance(x, ast.Call) and len(x.args) == 1 and not x.keywords and (_is_np(x.func, 'cos') or _is_np(x.func, 'sin')):
+            return x.func.attr, ast.unparse(x.args[0])
+        if isinstance(x, ast.Attribute) and x.attr in ('real', 'imag') and isinstance(x.value, ast.Call) \
+                and _is_np(x.value.func, 'exp') and len(x.value.args) == 1 and not x.value.keywords:
+            a = x.value.args[0]
+            if isinstance(a, ast.BinOp) and isinstance(a.op, ast.Mult):
+                for j, th in ((a.left, a.right), (a.right, a.left)):
+                    if isinstance(j, ast.Constant) and j.value == 1j:
+                        return ('cos' if x.attr == 'real' else 'sin'), ast.unparse(th)
+        raise TranslateError('PSK: a coordinate is not cos / sin of the phases: ' + ast.unparse(x)[:80])
+
+    want = ast.unparse(norm.subst(phases, {}))
+    if not (isinstance(e, ast.BinOp) and isinstance(e.op, ast.Add) and isinstance(e.right, ast.BinOp)
+            and isinstance(e.right.op, ast.Mult)):
+        raise TranslateError('PSK: the result is not `real + 1j * imag`')
+    j, im = e.right.left, e.right.right
+    if not (isinstance(j, ast.Constant) and j.value == 1j):
+        j, im = im, j
+    if not (isinstance(j, ast.Constant) and j.value == 1j):
+        raise TranslateError('PSK: the result is not `real + 1j * imag`')
+    if trig(e.left) != ('cos', want) or trig(im) != ('sin', want):
+        raise TranslateError('PSK: the result is not `cos(phases) + 1j * sin(phases)`')
 
 
 def gen(repo):
@@ -95,9 +176,7 @@ def gen(repo):
     cls2 = '{α : Type} [Add α] [Mul α] [Div α] [NatCast α] [Trig α]'
     out.append('def pskPhase %s (M k : Nat) (phaseOffset : α) : α :=\n  let M : α := (M : α)\n  %s\n'
                % (cls2, real_expr(ph[0].value, {'M': 'M', 'phaseOffset': 'phaseOffset'})))
-    for need in ('realPart = np.cos(phases)', 'imagPart = np.sin(phases)', 'return realPart + 1j * imagPart'):
-        if need not in src:
-            raise TranslateError('PSK: missing `%s`' % need)
+    psk_check_parts(stmts, ph[0].value)
     # ---- BPSK literal
     f = find_fn(fund, '__init__', 'BPSK')
     calls = [s for s in strip_doc(f.body) if 'setConstellation' in ast.unparse(s)]
